@@ -14,6 +14,7 @@ Oracle: reference tokenizer (left-to-right scan).
 from __future__ import annotations
 
 import itertools
+import math
 
 from .. import common, refmodel
 from ..common import Result, libs, VERSIONS
@@ -235,8 +236,9 @@ def units(tier):
         for b in range(len(classes)):
             if a != b:
                 us.append(('D', a, b, 3 if tier == 'quick' else 4))
-    for ci in range(len(classes)):
-        us.append(('E', ci, 3 if tier == 'quick' else 4))
+    for ci, (v, n, cls) in enumerate(classes):
+        for oi in range(math.factorial(len(ec_sets_for(cls)))):
+            us.append(('E', ci, oi, 3 if tier == 'quick' else 4))
     return us
 
 
@@ -309,22 +311,27 @@ def run_unit(unit, tier):
         res.dims['D:ordered class pairs'] += 1
     elif unit[0] == 'E':
         # the same class under its delimiter sets one after the other, in both orders (sets differing only in the truncation character)
-        _, ci, n = unit
+        # (one order per unit, i.e. per fresh process: what the class keeps from the first set must not reach the second);
+        # the strings range over the union of the sets' alphabets, so a character that is a delimiter in one set is
+        # a plain character in the other
+        _, ci, oi, n = unit
         v, nm, cls = classes[ci]
         ctxs = ec_sets_for(cls)
         import itertools as _it
-        for order in _it.permutations(range(len(ctxs))):
-            for oi in order:
-                ecname, ec, letters = ctxs[oi]
-                sym = alphabet(ec)
-                fam = family_name(v, nm, cls) + ('@2.7+' if letters == LETTERS_27 else '@<2.7') + '|set-order'
-                cnt = 0
-                for x in strings(sym, n):
-                    check_string(res, fam, cls, letters, ec, x, ecname + ' in order %r' % (order,))
-                    cnt += 1
-                res.enumerated += cnt
-                res.states += cnt
-                res.expected_size += n_strings(len(sym), n)
+        order = list(_it.permutations(range(len(ctxs))))[oi]
+        sym = []
+        for ecname, ec, letters in ctxs:
+            sym += [c for c in alphabet(ec) if c not in sym]
+        for k in order:
+            ecname, ec, letters = ctxs[k]
+            fam = family_name(v, nm, cls) + ('@2.7+' if letters == LETTERS_27 else '@<2.7') + '|set-order'
+            cnt = 0
+            for x in strings(sym, n):
+                check_string(res, fam, cls, letters, ec, x, ecname + ' in order %r' % (order,))
+                cnt += 1
+            res.enumerated += cnt
+            res.states += cnt
+            res.expected_size += n_strings(len(sym), n)
         res.dims['E:set orders'] += 1
     else:
         _, v, k = unit
@@ -358,6 +365,18 @@ def end_to_end(res, v, k):
     nseg = len(refmodel.seg_lines(base))
     sym = alphabet(ec)
     ST, IS_ = lib.BASE_DATATYPES['ST'], lib.BASE_DATATYPES['IS']
+    # the same segment on its own (its own delimiters are the defaults), encoded with the set passed explicitly: must give what
+    # the segment inside the message gives
+    from hl7apy.core import Segment
+    solo = Segment('PID', version=v)
+    solo.pid_5 = 'A^B'
+    solo.pid_3 = 'I' + ec['REPETITION'] + 'J'      # one field: assigned as a whole, the repetition separator is text
+    solo.pid_23 = 'q'
+    solo.pid_5.xpn_2.value = ST('q')
+    solo.pid_3.cx_4.hd_2.value = ST('q')
+    m.pid.pid_5.xpn_2.value = ST('q')
+    m.pid.pid_3.cx_4.hd_2.value = ST('q')
+    m.pid.pid_23.value = ST('q')
     # leaf at component level (xpn_2 is ST) and at subcomponent level (cx_4.hd_1 / hd_2 is ST)
     cnt = 0
     for x in strings(sym, 3):
@@ -375,6 +394,19 @@ def end_to_end(res, v, k):
                 m.pid.pid_23.value = ST(x)
             out = m.to_er7()
             counts = refmodel.count_separators(out, ec)
+            target = {'comp': lambda e: e.pid_5.xpn_2, 'sub': lambda e: e.pid_3.cx_4.hd_2, 'field': lambda e: e.pid_23}[where]
+            target(solo).value = ST(x)
+            try:
+                solo_out = solo.to_er7(dict(ec))
+            except Exception as e:
+                solo_out = '!%s' % exc_class(e)
+            target(solo).value = ST('q')
+            inside = [l for l in refmodel.seg_lines(out) if l.startswith('PID')]
+            res.transitions += 1
+            if [solo_out] != inside:
+                res.violation('explicit-set-differs|%s|%s' % (where, role_pattern(x, ec)),
+                              'PID with ST(%r) at %s level: inside a message built with the set it encodes %r, on its own with to_er7(the set) %r'
+                              % (x, where, inside, solo_out), {'kind': 'C', 'v': v, 'k': k, 'x': x, 'where': where}, rank=len(x))
             # the new leaf may add the separators needed to reach its own position; compare against the same
             # assignment with a plain value
             if where == 'comp':
@@ -422,18 +454,7 @@ def run(tier, seed, extra):
 
 def replay(point, res):
     if point['kind'] == 'A' and '|' in point['class']:
-        # order-dependence units: re-run the unit that produced it
-        fam = point['class']
-        cl = textual_classes()
-        base, how = fam.split('|', 1)
-        for bi, (v, n, cls) in enumerate(cl):
-            if base.startswith(family_name(v, n, cls) + '@'):
-                if how == 'set-order':
-                    res.merge(run_unit(('E', bi, 3), 'quick'))
-                else:
-                    for ai, (va, na, A) in enumerate(cl):
-                        if how == 'after-' + A.__module__.replace('hl7apy.', '') + '.' + A.__name__:
-                            res.merge(run_unit(('D', ai, bi, 3), 'quick'))
+        # order-dependence units do not reproduce from one point: the runner re-runs the recorded unit in a fresh process
         return
     if point['kind'] == 'A':
         for v, n, cls in textual_classes():
